@@ -33,9 +33,15 @@ def canon_cons(cons):
 
 
 def run_alg(mk_alg, one):
-    def f(ds, sc):
+    def f(ds, sc, pool=None):
         random.seed(31)
-        cons = mk_alg().compute_consensus_rankings(ds, sc, one)
+        if pool is None:
+            alg = mk_alg()
+        else:                       # one algorithm object per configuration for the whole history
+            if id(f) not in pool:
+                pool[id(f)] = mk_alg()
+            alg = pool[id(f)]
+        cons = alg.compute_consensus_rankings(ds, sc, one)
         out = canon_cons(cons)
         out["score"] = round(float(cons.kemeny_score), 6)
         out["desc_len"] = len(cons.description())
@@ -61,6 +67,7 @@ OPS = {
     "scheme_ops": lambda ds, sc: [(sc * 2).penalty_vectors, (0.5 * sc).penalty_vectors, sc.is_equivalent_to(sc * 3), sc[0], sc.b_vector, sc.t_vector],
     "eq": lambda ds, sc: [ds == copy.deepcopy(ds), ds.contains_element("zz"), len(list(iter(ds)))],
 }
+ALG_OPS = {"borda", "borda_bid", "copeland", "kwiksort", "pickaperm", "bioconsert", "bioco", "bio_starters", "parcons", "parcons_aux", "exact"}
 NONDETERMINISTIC = set()   # KwikSort is seeded inside run_alg, so every op here is repeatable
 
 
@@ -71,7 +78,7 @@ def sc_term(sc):
 class Histories(Suite):
     name = "histories"
     imports = ["Scheme", "Parser", "DatasetModel", "Judge.JC16", "Judge.JC15"]
-    judge = "judge_history"
+    judge = "judge_history2"
 
     def gen(self, tier, rng):
         cases = []
@@ -83,44 +90,56 @@ class Histories(Suite):
                 # the dataset's own list of rankings)
                 univ = sorted({e for r in D for b in r for e in b}, key=str)
                 D = [gen.random_ranking(rng, univ, 1.0, rng.choice([1.0, 0.6])) for _ in range(rng.randint(2, 4))]
-            cases.append({"D": D, "s": rng.choice([gen.UNIFYING, gen.UNIFYING, gen.UNIFYING_HALF]), "ops": ops,
-                          "name": rng.choice(["", "my data", "None"])})
+            s1 = rng.choice([gen.UNIFYING, gen.UNIFYING, gen.UNIFYING_HALF])
+            # second phase: a scheme with the same first three penalties in both vectors (equivalent on complete rankings only)
+            s2 = rng.choice([[s1[0][:3] + [0.0, 1.0, 0.0], s1[1][:3] + [s1[1][0], s1[1][0], 0.0]],      # pseudo-distance
+                             [s1[0][:3] + [0.0, 0.0, 0.0], s1[1][:3] + [0.0, 0.0, 0.0]],               # induced measure
+                             [[2 * x for x in s1[0]], [2 * x for x in s1[1]]]])
+            cases.append({"D": D, "s": s1, "s2": s2, "ops": ops, "name": rng.choice(["", "my data", "None"])})
         return cases
 
     def run(self, case):
         ds = Dataset.from_raw_list([[set(b) for b in r] for r in case["D"]], name=case["name"])
-        sc = ScoringScheme(case["s"])
-        pristine_ds, pristine_sc = copy.deepcopy(ds), copy.deepcopy(sc)
+        pristine_ds = copy.deepcopy(ds)
         d0 = dsnap(ds)
-        steps = []
-        for name in case["ops"]:
-            op = OPS[name]
-            try:
-                out = json.dumps(op(ds, sc), sort_keys=True, default=str)
-            except Exception as e:
-                out = "EXC:" + type(e).__name__
-            try:
-                fresh = json.dumps(op(copy.deepcopy(pristine_ds), copy.deepcopy(pristine_sc)), sort_keys=True, default=str)
-            except Exception as e:
-                fresh = "EXC:" + type(e).__name__
-            try:
-                again = json.dumps(op(ds, sc), sort_keys=True, default=str)
-            except Exception as e:
-                again = "EXC:" + type(e).__name__
-            steps.append({"op": name, "ds": dsnap(ds), "sc": sc.penalty_vectors, "name_same": ds.name == case["name"],
-                          "same_as_fresh": out == fresh, "same_twice": out == again, "raised": out.startswith("EXC:")})
-        return {"d0": d0, "steps": steps}
+        pool = {}          # the algorithm objects are shared by the whole history (both phases)
+        phases = []
+        for svec in (case["s"], case["s2"]):
+            sc = ScoringScheme(svec)
+            pristine_sc = copy.deepcopy(sc)
+            steps = []
+            for name in case["ops"]:
+                op = OPS[name]
+                shared = (lambda: op(ds, sc, pool)) if name in ALG_OPS else (lambda: op(ds, sc))
+                try:
+                    out = json.dumps(shared(), sort_keys=True, default=str)
+                except Exception as e:
+                    out = "EXC:" + type(e).__name__
+                try:
+                    fresh = json.dumps(op(copy.deepcopy(pristine_ds), copy.deepcopy(pristine_sc)), sort_keys=True, default=str)
+                except Exception as e:
+                    fresh = "EXC:" + type(e).__name__
+                try:
+                    again = json.dumps(shared(), sort_keys=True, default=str)
+                except Exception as e:
+                    again = "EXC:" + type(e).__name__
+                steps.append({"op": name, "ds": dsnap(ds), "sc": sc.penalty_vectors, "name_same": ds.name == case["name"],
+                              "same_as_fresh": out == fresh, "same_twice": out == again, "raised": out.startswith("EXC:")})
+            phases.append(steps)
+        return {"d0": d0, "steps": phases[0], "steps2": phases[1]}
 
     def term(self, case, out):
-        steps = clist([f"(mkH {dsnap_term(s['ds'])} {scheme_term(s['sc'])} {cbool(s['name_same'])} {cbool(s['same_as_fresh'])} {cbool(s['same_twice'])})"
-                       for s in out["steps"]])
-        return f"({dsnap_term(out['d0'])}, {scheme_term(case['s'])}, {steps})"
+        def hist(steps, svec):
+            st = clist([f"(mkH {dsnap_term(s['ds'])} {scheme_term(s['sc'])} {cbool(s['name_same'])} {cbool(s['same_as_fresh'])} {cbool(s['same_twice'])})"
+                        for s in steps])
+            return f"({dsnap_term(out['d0'])}, {scheme_term(svec)}, {st})"
+        return f"({hist(out['steps'], case['s'])}, {hist(out['steps2'], case['s2'])})"
 
     def nontrivial(self, case, out):
         return len(case["ops"]) >= 3
 
     def stats(self, case, out, acc):
-        for s in out["steps"]:
+        for s in out["steps"] + out["steps2"]:
             acc[s["op"]] = acc.get(s["op"], 0) + 1
             if s["raised"]:
                 acc["raised:" + s["op"]] = acc.get("raised:" + s["op"], 0) + 1
